@@ -230,7 +230,21 @@ def run_shard(spec):
         nt, cl = check_equality(pair)
         st_.case(["eq", pair], nt, cl, sample={"pair": pair} if count[0] % 1500 == 1 else None)
 
-    res = runner.hyp_search(st.tuples(ev_spec(), ev_spec()), body, seed=runner.derive_seed(seed, ID, i), max_examples=4000 if tier == "quick" else 40000)
+    @st.composite
+    def pair(draw):
+        a = draw(ev_spec())
+        mode = draw(st.integers(0, 4))
+        if mode == 0:
+            return a, a
+        if mode == 1:
+            return a, (draw(st.integers(0, 12)), a[1], a[2], a[3])
+        if mode == 2:
+            return a, (a[0], draw(PATH), a[2], a[3])
+        if mode == 3:
+            return a, (a[0], a[1], a[2], not a[3])
+        return a, draw(ev_spec())
+
+    res = runner.hyp_search(pair(), body, seed=runner.derive_seed(seed, ID, i), max_examples=4000 if tier == "quick" else 40000)
     if res is not None:
         pair, v = res
         st_.fail({"kind": "eq", "pair": pair}, v.message, v.signature)
